@@ -236,6 +236,79 @@ func runLogoutStream(c *Ctx, n int) {
 			c.Violate("panic", "logout:panic", "logout validator panicked: "+panicked, replay)
 			continue
 		}
+		// ---- message-kind confusion: a genuine message of one kind presented to the validator of the OTHER kind (and to the
+		// SSO Response validator) must be refused, signed or not
+		if genuine && r.Intn(3) == 0 {
+			var ok2 bool
+			var who string
+			func() {
+				defer func() { recover() }()
+				switch r.Intn(3) {
+				case 0:
+					who = "ValidateEncodedResponse"
+					resp, e := sp.ValidateEncodedResponse(enc)
+					ok2 = e == nil && resp != nil
+				default:
+					if isResp {
+						who = "ValidateEncodedLogoutRequestPOST"
+						lq, e := sp.ValidateEncodedLogoutRequestPOST(enc)
+						ok2 = e == nil && lq != nil
+					} else {
+						who = "ValidateEncodedLogoutResponsePOST"
+						lr, e := sp.ValidateEncodedLogoutResponsePOST(enc)
+						ok2 = e == nil && lr != nil
+					}
+				}
+			}()
+			c.Count("logout:cross-kind-presentation")
+			if ok2 {
+				rp := map[string]interface{}{}
+				for k, v := range replay {
+					rp[k] = v
+				}
+				rp["op"] = who + " on a " + rs.Kind
+				c.Violate("spec", "logout:kind-confusion", "a "+rs.Kind+" was accepted by "+who, rp)
+			}
+		}
+		// ---- the same ID and the same Signature element on ALTERED content, presented to the same SP object right after the
+		// genuine message was accepted as signature-validated: must be refused (nothing remembered from the first call may vouch)
+		if genuine && accepted && flag && !sp.SkipSignatureValidation && len(faults) == 0 {
+			d3 := etree.NewDocument()
+			if d3.ReadFromBytes(raw) == nil {
+				rt := d3.Root()
+				what := ""
+				if n := findFirst(rt, "NameID"); n != nil {
+					n.SetText("admin@example.com")
+					what = "NameID rewritten"
+				} else {
+					rt.CreateAttr("InResponseTo", "_attacker_chosen_request")
+					what = "InResponseTo rewritten"
+				}
+				raw3, _ := d3.WriteToBytes()
+				enc3 := b64(raw3)
+				ok3 := false
+				func() {
+					defer func() { recover() }()
+					if isResp {
+						lr, e := sp.ValidateEncodedLogoutResponsePOST(enc3)
+						ok3 = e == nil && lr != nil && lr.SignatureValidated
+					} else {
+						lq, e := sp.ValidateEncodedLogoutRequestPOST(enc3)
+						ok3 = e == nil && lq != nil && lq.SignatureValidated
+					}
+				}()
+				c.Count("logout:tampered-replay-after-genuine")
+				if ok3 {
+					rp := map[string]interface{}{}
+					for k, v := range replay {
+						rp[k] = v
+					}
+					rp["history"] = "1. the genuine message (field 'encoded') is validated on this SP object; 2. the tampered message (field 'encoded_tampered': " + what + ", same ID, same Signature) is presented to the same object"
+					rp["encoded_tampered"], rp["xml_tampered"] = enc3, string(raw3)
+					c.Violate("spec", "logout:tampered-replay-accepted", "after a genuine signed logout message was accepted, the same ID and Signature on altered content ("+what+") is accepted as signature-validated", rp)
+				}
+			}
+		}
 		if err != nil {
 			obs = VC("Err", errVal(err))
 		}
@@ -330,6 +403,15 @@ func runPredecodeStream(c *Ctx, n int) {
 		if isLogout {
 			rs = &ResponseSpec{ID: fmt.Sprintf("_l%d", r.Intn(1000000)), InResponseTo: "_q1", Version: "2.0", Issuer: sp2(idpIss), StatusCode: sp2(statusOK),
 				Style: styles[r.Intn(len(styles))], Kind: "LogoutResponse", Destination: pick(r, sloURL, ""), XMLDecl: r.Intn(3) == 0}
+			switch r.Intn(8) {
+			case 0:
+				rs.IssuerSplit = "pi"
+				labels = append(labels, "issuer-text-split-by-processing-instruction")
+			case 1:
+				rs.Issuer = sp2("\n    " + idpIss + "\n  ")
+				sp.IdentityProviderIssuer = ""
+				labels = append(labels, "issuer-text-padded")
+			}
 			root := buildMessage(rs)
 			doc := etree.NewDocument()
 			if rs.XMLDecl {
@@ -346,6 +428,19 @@ func runPredecodeStream(c *Ctx, n int) {
 			labels = append(labels, "kind=LogoutResponse")
 		} else {
 			rs = g.okResponseSpec(1 + r.Intn(2))
+			switch r.Intn(8) {
+			case 0:
+				rs.IssuerSplit = "pi"
+				labels = append(labels, "issuer-text-split-by-processing-instruction")
+			case 1:
+				rs.IssuerSplit = "child"
+				labels = append(labels, "issuer-text-split-by-child-element")
+			case 2:
+				// an IdP that pretty-prints: the Issuer value on a line of its own (the value, as encoding/xml reads it, is padded)
+				rs.Issuer = sp2("\n    " + idpIss + "\n  ")
+				sp.IdentityProviderIssuer = ""
+				labels = append(labels, "issuer-text-padded")
+			}
 			placement := 1 + r.Intn(3)
 			doc := g.buildSigned(rs, placement, w.IdP1, nil)
 			raw, _ = doc.WriteToBytes()
